@@ -14,7 +14,9 @@ pub const LC_INSERT0: u8 = 1;
 pub const LC_DOWNCAST: u8 = 2;
 pub const LC_DROP: u8 = 3;
 pub const LC_SPLICE: u8 = 4;
-pub const LC_NAMES: [&str; 5] = ["push", "insert(0)", "downcast", "drop-unconsumed", "splice-item"];
+pub const LC_SPLICE_REPLACE: u8 = 5;
+pub const LC_KINDS: u8 = 6;
+pub const LC_NAMES: [&str; 6] = ["push", "insert(0)", "downcast", "drop-unconsumed", "splice-insert-at-end", "splice-replace-first"];
 
 pub struct LazyPlay<'a, C: Cfg> {
     pub dst: &'a mut V<C>,
@@ -34,6 +36,12 @@ fn consume_one<C: Cfg, L: AnyValue>(lc: L, how: u8, dst: &mut V<C>, owned: &mut 
         LC_SPLICE => {
             let n = dst.len();
             let it = dst.splice(n..n, [lc]);
+            drop(it);
+        }
+        LC_SPLICE_REPLACE => {
+            // same-length replacement of the first element (pure insertion when empty)
+            let k = dst.len().min(1);
+            let it = dst.splice(0..k, [lc]);
             drop(it);
         }
         _ => drop(lc),
@@ -79,7 +87,7 @@ impl<C: Cfg> World<C> {
     pub fn do_lazy(&mut self, v: usize, w: usize, kind: u32, j: usize, depth: u32, consume: &[u8], tr: &mut String) {
         const KN: [&str; 6] = ["ElementRef", "ElementMut", "drained Element", "Pop handle", "Remove handle", "SwapRemove handle"];
         let kind = kind % 6;
-        let names: Vec<&str> = consume.iter().map(|c| LC_NAMES[*c as usize % 5]).collect();
+        let names: Vec<&str> = consume.iter().map(|c| LC_NAMES[(*c % LC_KINDS) as usize]).collect();
         let _ = write!(tr, "lazy_clone({} of v{}[{}], depth {}, consume {:?} -> v{})", KN[kind as usize], w, j, depth, names, v);
         let wlen = self.model[w].len();
         if !<C::Tr as TSet>::CLONEABLE || wlen == 0 {
@@ -88,7 +96,7 @@ impl<C: Cfg> World<C> {
         }
         let j = if kind == 3 { wlen - 1 } else { j % wlen };
         // destination admission: plan only consumptions the destination can take
-        let mut consume: Vec<u8> = consume.iter().map(|c| c % 5).collect();
+        let mut consume: Vec<u8> = consume.iter().map(|c| c % LC_KINDS).collect();
         let mut room = match self.flav[v].fixed_cap() {
             Some(c) => c.saturating_sub(self.model[v].len()),
             None => usize::MAX,
@@ -99,6 +107,31 @@ impl<C: Cfg> World<C> {
                     *c = LC_DROP;
                 } else {
                     room -= 1;
+                }
+            }
+            if *c == LC_SPLICE_REPLACE && self.model[v].is_empty() {
+                if room == 0 {
+                    *c = LC_DROP;
+                } else {
+                    room -= 1;
+                }
+            }
+        }
+        // each splice-replace on a non-empty destination destroys the element it replaces
+        let mut replaced_in_dst = 0usize;
+        {
+            let mut dlen = self.model[v].len();
+            for c in consume.iter() {
+                match *c {
+                    LC_PUSH | LC_INSERT0 | LC_SPLICE => dlen += 1,
+                    LC_SPLICE_REPLACE => {
+                        if dlen == 0 {
+                            dlen = 1;
+                        } else {
+                            replaced_in_dst += 1;
+                        }
+                    }
+                    _ => {}
                 }
             }
         }
@@ -161,6 +194,13 @@ impl<C: Cfg> World<C> {
             match *c {
                 LC_PUSH | LC_SPLICE => self.model[v].push(p),
                 LC_INSERT0 => self.model[v].insert(0, p),
+                LC_SPLICE_REPLACE => {
+                    if self.model[v].is_empty() {
+                        self.model[v].push(p);
+                    } else {
+                        self.model[v][0] = p;
+                    }
+                }
                 _ => {}
             }
         }
@@ -204,7 +244,7 @@ impl<C: Cfg> World<C> {
                 }
             }
             // dropping lazies destroys nothing: only the removal kinds destroy exactly the source
-            let expected_drops = if kind >= 2 { 1 } else { 0 };
+            let expected_drops = (if kind >= 2 { 1 } else { 0 }) + replaced_in_dst as u64;
             let drops1 = reg(|r| r.drop_calls);
             if drops1 - drops0 != expected_drops {
                 self.fail(MON_CLONE | MON_OWN, "lazy:drops", format!("lazy clone play destroyed {} element(s), expected {}", drops1 - drops0, expected_drops));
